@@ -146,6 +146,9 @@ def run(chk: Check):
     rc = c02_rules.RuleCheck(chk)
     for tag, prog, sources in corpus:
         run_program(chk, da, prog, sources, progs.eval_np(prog, sources), rc)
+    for _ in range(1500 if chk.tier == "thorough" else 120):
+        prog, sources, want = progs.slice_chain(chk.rng)
+        run_program(chk, da, prog, sources, want, rc) if "rc" in run_program.__code__.co_varnames else run_program(chk, da, prog, sources, want)
     n = 8000 if chk.tier == "thorough" else 400
     for prog, sources, want in progs.gen_programs(chk.rng, n, unique=True):
         run_program(chk, da, prog, sources, want, rc)
